@@ -91,6 +91,11 @@ partial def loop (tbl : Table) (spec : SpecTable) (h : IO.FS.Stream) (out : IO.F
   | some (drm, op, args, res) =>
     let g : Globals := ⟨drm⟩
     let mut st := { st with total := st.total + 1 }
+    if res == #["HANG"] then
+      -- the harness's watchdog: the call had not returned when the limit expired. Every property presupposes
+      -- termination, so this is a violation with this input; the model is not run on it (it would loop as well)
+      out.putStrLn s!"SPEC {line} ## the call did not return within the watchdog limit"
+      return ← loop tbl spec h out { st with spec := st.spec + 1, specViolation := st.specViolation + 1 }
     match runModel tbl g op args with
     | none => st := { st with noModel := st.noModel + 1 }
     | some r =>
